@@ -44,6 +44,18 @@ Definition step38 (s : state) (o : op) : state * bool :=
 (** The snapshot Backup/Export force first (writeSnapshotWithRetries). *)
 Definition snapshot_now (s : state) : state := fst (step (fst (step s SnapBegin)) SnapCommit).
 
+(** The same forced snapshot while cache snapshots are disabled (Shard.Free,
+    SetCompactionsEnabled(false)): Cache.Snapshot() swaps the hot store into the snapshot
+    store, Compactor.WriteSnapshot refuses, ClearSnapshot(false) keeps the snapshot store
+    for the retry; CreateSnapshot returns the error (only ErrSnapshotInProgress may be
+    skipped) so Backup/Export fail — unless the cache was empty, which is a successful
+    empty snapshot.  Result: (state, the action failed). *)
+Definition snapshot_refused (s : state) : state * bool :=
+  match hot s, snap s with
+  | [], [] => (s, false)
+  | _, _ => (fst (step (fst (step s SnapBegin)) SnapFail), true)
+  end.
+
 (** ** Backup / restore on the engine state. *)
 Definition strip (f : file) : file := {| fpts := fpts f; ftomb := [] |}.
 Definition engine_of (fs : list file) : state :=
@@ -119,6 +131,8 @@ Inductive action := ABackup (since : Z) | AExport (lo hi : Z).
 Record case := {
   c_hist : list (op * bool);     (* history on the source engine with the observed success flags *)
   c_act : action;
+  c_snapoff : bool;              (* first attempt with cache snapshots disabled, retried if it failed *)
+  c_err1 : N;                    (* error class of that first attempt (3 = snapshots disabled) *)
   c_files : list ofile;          (* source TSM files after the action, in name order *)
   c_err : N;                     (* error class of Backup / Export *)
   c_members : list member;       (* archive members, sorted by (file, kind) *)
@@ -207,7 +221,9 @@ Definition has_tomb (o : ofile) : bool := match o_tomb o with Some _ => true | N
 
 Definition check (c : case) : verdict :=
   let (s0, flags_ok) := run38 (c_hist c) in
-  let s := snapshot_now s0 in
+  let (s1, refused) := if c_snapoff c then snapshot_refused s0 else (s0, false) in
+  let first_ok := N.eqb (c_err1 c) (if refused then 3 else 0) in
+  let s := snapshot_now s1 in
   let lay := forallb2 layout_ok (files s) (c_files c) in
   let srcok := zzs_eqb (c_readA c) (read_all s) in
   match c_act c with
@@ -219,7 +235,7 @@ Definition check (c : case) : verdict :=
       let dst := restore_state archive in
       let tombs_in := existsb snd archive in
       let same :=
-        (flags_ok && lay && srcok && N.eqb (c_err c) 0 && N.eqb (c_rerr c) 0
+        (flags_ok && first_ok && lay && srcok && N.eqb (c_err c) 0 && N.eqb (c_rerr c) 0
          && list_eqb (option_eqb nk_eqb) obs (map Some ms)
          && zzs_eqb (c_readB c) (read_all dst)
          && match c_seriesB c with
@@ -257,7 +273,7 @@ Definition check (c : case) : verdict :=
       let tomb_members := map m_file (filter (fun m => N.eqb (m_kind m) 1) (c_members c)) in
       let tomb_expected := flat_map (fun io => if has_tomb (snd io) then [Some (fst io)] else []) (indexed 0 (c_files c)) in
       let same :=
-        (flags_ok && lay && srcok && N.eqb (c_err c) 0 && N.eqb (c_rerr c) 0
+        (flags_ok && first_ok && lay && srcok && N.eqb (c_err c) 0 && N.eqb (c_rerr c) 0
          && forallb2 (fun (m : member) (x : nat * bfile) =>
                         option_eqb Nat.eqb (m_file m) (Some (fst x)) && bfile_eqb (m_blocks m) (snd x))%bool
                      tsm_members ms
